@@ -500,8 +500,15 @@ def run_property(prop_id, tier, seed, workers=None):
                 tasks.append((prop_id, c.name, sh, ns, tier, seed, tuple(suppressed[c.name])))
         if not tasks:
             break
-        with ctx.Pool(min(workers, len(tasks))) as pool:
-            results = list(pool.imap_unordered(_run_shard, tasks, chunksize=1))
+        # ProcessPoolExecutor: a worker that dies (OOM, signal) surfaces as BrokenProcessPool, not as a hang
+        from concurrent.futures import ProcessPoolExecutor
+        from concurrent.futures.process import BrokenProcessPool
+        try:
+            with ProcessPoolExecutor(max_workers=min(workers, len(tasks)), mp_context=ctx) as pool:
+                results = list(pool.map(_run_shard, tasks, chunksize=1))
+        except BrokenProcessPool as exc:
+            print("HARNESS-ERROR property=%s a worker process died: %r" % (prop_id, exc))
+            return 2
         new_fail = {}
         for r in results:
             a = agg[r["clause"]]
